@@ -9,7 +9,8 @@ import traceback
 
 ROOT = os.path.dirname(os.path.dirname(os.path.abspath(__file__)))
 OUT = os.environ.get("VF_OUT", os.path.join(ROOT, "out"))
-EVID = os.path.join(ROOT, "evidence")
+# runs against a scratch checkout (VF_REPO) must not overwrite the evidence of the checks on /repo
+EVID = os.path.join(OUT, "evidence") if os.environ.get("VF_REPO") else os.path.join(ROOT, "evidence")
 NPROC = int(os.environ.get("VF_JOBS", "0")) or min(16, os.cpu_count() or 4)
 FALSY = ("str", "int", "bool")
 
@@ -222,7 +223,8 @@ def check(pid, tier, seed, only=None):
         obs = [o for o in obs if only in o["oid"]]
     for o in obs:
         o.setdefault("budget", 120)
-    print("%s %s: %d obligations on %d workers" % (pid, tier, len(obs), NPROC), flush=True)
+    import rdflib
+    print("%s %s: %d obligations on %d workers (rdflib from %s)" % (pid, tier, len(obs), NPROC, os.path.dirname(os.path.dirname(rdflib.__file__))), flush=True)
     results = run_all(pid, obs, log=lambda s: print(s, flush=True))
     os.makedirs(os.path.join(OUT, "results"), exist_ok=True)
     with open(os.path.join(OUT, "results", "%s_%s.json" % (pid, tier)), "w") as f:
@@ -359,7 +361,7 @@ def write_evidence(pid, pm, tier, seed, obs, results, n, traces, violations, kno
             "bounds": pm.bounds(tier) if hasattr(pm, "bounds") else {},
             "stubs": getattr(pm, "STUBS", []),
             "solver_s": round(solver_s, 1), "cpu_s": round(cpu_s, 1),
-            "repo_head": head, "repo_dirty": dirty,
+            "repo_head": head, "repo_dirty": dirty, "rdflib_imported_from": os.path.dirname(os.path.dirname(__import__("rdflib").__file__)),
             "exhaustive": False,
         },
         "assumptions": getattr(pm, "ASSUMPTIONS", []) + [
